@@ -11,6 +11,7 @@
 package PKGNAME
 
 import (
+	"errors"
 	"fmt"
 	"math"
 	"os"
@@ -56,6 +57,9 @@ type vfGccScript struct {
 	Defaults bool        `json:"defaults"`
 	Base     int         `json:"base"`
 	Steps    []vfGccStep `json:"steps"`
+	// PCloseErr: the injected (recording) pacer's Close returns an error (the estimator's Close reports it; the estimator
+	// is closed all the same: WriteRTCP fails with the closed error, a second Close is harmless)
+	PCloseErr bool `json:"pcloseerr"`
 	// level conc
 	Feeders    int `json:"feeders"`
 	Writes     int `json:"writes"`
@@ -153,12 +157,22 @@ func (p *vfGccDirect) Write(h *rtp.Header, b []byte, a interceptor.Attributes) (
 
 // vfGccRecPacer records SetTargetBitrate and forwards everything to the wrapped pacer.
 type vfGccRecPacer struct {
-	log   *vfGccLog
-	inner vfGccPacerAPI
+	log      *vfGccLog
+	inner    vfGccPacerAPI
+	closeErr bool
 }
 
+var errVfGccPacerClose = errors.New("injected pacer close failure") //nolint:gochecknoglobals
+
 func (p *vfGccRecPacer) AddStream(ssrc uint32, w interceptor.RTPWriter) { p.inner.AddStream(ssrc, w) }
-func (p *vfGccRecPacer) Close() error                                  { return p.inner.Close() }
+func (p *vfGccRecPacer) Close() error {
+	err := p.inner.Close()
+	if p.closeErr {
+		return errVfGccPacerClose
+	}
+
+	return err
+}
 func (p *vfGccRecPacer) Write(h *rtp.Header, b []byte, a interceptor.Attributes) (int, error) {
 	return p.inner.Write(h, b, a)
 }
@@ -527,7 +541,7 @@ func (r *vfGccRun) close() {
 	if err != nil {
 		msg = err.Error()
 	}
-	r.lg.add(vfM{"a": "close", "err": msg})
+	r.lg.add(vfM{"a": "close", "err": msg, "inj": r.sc.PCloseErr && r.sc.Pacer != "default"})
 }
 
 func vfGccRunSeq(sc *vfGccScript, lg *vfGccLog, d *vfGccDriver) {
@@ -572,6 +586,14 @@ func vfGccRunSeq(sc *vfGccScript, lg *vfGccLog, d *vfGccDriver) {
 	vfGccWithin("WriteRTCP after Close", func() { res = d.feed(r.fb.build("inc", 0)) })
 	r.lg.add(vfM{"a": "fb", "pat": "inc", "loss": 0, "n": 1, "res": res})
 	r.quiesce()
+	// a second Close of a closed estimator is harmless (whatever the pacer's Close said the first time)
+	var err2 error
+	vfGccWithin("second Close", func() { err2 = d.close() })
+	msg2 := ""
+	if err2 != nil {
+		msg2 = err2.Error()
+	}
+	r.lg.add(vfM{"a": "close2", "err": msg2})
 	lg.add(vfM{"a": "end"})
 }
 
@@ -642,7 +664,7 @@ func vfGccRunConc(sc *vfGccScript, lg *vfGccLog, d *vfGccDriver) {
 		if err != nil {
 			msg = err.Error()
 		}
-		lg.add(vfM{"a": "cret", "err": msg})
+		lg.add(vfM{"a": "cret", "err": msg, "inj": sc.PCloseErr && sc.Pacer != "default"})
 	}()
 	vfGccWithin("concurrent WriteRTCP/Close (every feeder and the closer)", func() {
 		<-closed
